@@ -10,6 +10,10 @@ CONSTANTS
   Sels = {"default", "tuple"}
   SourceEq = FALSE
   Interleave = FALSE
+  MaxAge = 2
+  MaxNow = 0
+  Ticks = {1}
+  Design = "tree"
 VIEW View
 INVARIANT NoSumViolation
 INVARIANT Structural
